@@ -219,16 +219,22 @@ def r3(ctx, cfg):
     key = "wasm::WasmKeeper::with_storage"
     f = ctx.need_fn(R, key)
     if f is not None:
-        rq = q.lexical_calls(F, key, "app::RouterQuerier::new")
-        ok = len(rq) == 1
+        # the RouterQuerier inside the DepsMut handed to the contract (literal, RouterQuerier::new or Router::querier)
+        aggs0 = [(g, b, i, st) for g in F.lexical(key) for b, i, st in g.stmts()
+                 if st["k"] == "assign" and st["rv"].get("k") == "aggregate" and st["rv"].get("adt") == "cosmwasm_std::DepsMut"]
+        ok = len(aggs0) == 1
         d = "?"
+        rqd = None
         if ok:
-            g, bid, t = rq[0]
-            a = P.call_args(g, t, bid)
-            st = peel(a[2])
+            g, b, i, st0 = aggs0[0]
+            qo0 = peel(dict(P.rvalue(g, st0["rv"], (b, i))[2])["querier"])
+            rqd = q.router_querier(qo0[2][0]) if qo0[0] == "call" and qo0[1] == "cosmwasm_std::QuerierWrapper::new" else None
+            ok = rqd is not None
+        if ok:
+            st = peel(rqd["storage"])
             d = fmt(st)
-            ok = st[0] == "bound" and st[1] == "base_ro" and is_param(st[2], "storage") and is_param(a[0], "router") and \
-                is_param(a[1], "api") and is_param(a[3], "block")
+            ok = st[0] == "bound" and st[1] == "base_ro" and is_param(st[2], "storage") and is_param(rqd["router"], "router") and \
+                is_param(rqd["api"], "api") and is_param(rqd["block_info"], "block")
         ctx.ob(R, key, "contract-querier-reads-transaction-view", ok,
                "the querier handed to an executing contract reads %s, expected the base of the contract's own cache" % d, fn=f,
                sample="RouterQuerier::new(router, api, read_store = base of this call's cache, block)")
@@ -240,7 +246,7 @@ def r3(ctx, cfg):
             g, b, i, st = aggs[0]
             o = P.rvalue(g, st["rv"], (b, i))
             qo = peel(dict(o[2])["querier"])
-            ok = qo[0] == "call" and qo[1] == "cosmwasm_std::QuerierWrapper::new" and peel(qo[2][0])[0] == "call" and peel(qo[2][0])[1] == "app::RouterQuerier::new"
+            ok = qo[0] == "call" and qo[1] == "cosmwasm_std::QuerierWrapper::new" and q.router_querier(qo[2][0]) is not None
         ctx.ob(R, key, "DepsMut.querier-is-that-querier", ok, "DepsMut.querier is not the RouterQuerier built here", fn=f,
                sample="QuerierWrapper::new(&querier)")
     key = "wasm::WasmKeeper::with_storage_readonly"
@@ -257,11 +263,14 @@ def r3(ctx, cfg):
     key = "<app::Router as app::CosmosRouter>::query"
     f = ctx.need_fn(R, key)
     if f is not None:
-        qs = q.calls(f, "app::Router::querier")
-        ok = len(qs) == 1
-        if ok:
-            a = P.call_args(f, qs[0][1], qs[0][0])
-            ok = is_param(a[0], "self") and is_param(a[1], "api") and is_param(a[2], "storage") and is_param(a[3], "block")
+        # every querier handed to a module by Router::query is over the router's own api / storage / block
+        qd = []
+        for b0, t0 in f.calls():
+            for o0, ty0 in zip(P.call_args(f, t0, b0), t0["callee"].get("inputs", [])):
+                if ty0["s"].endswith("dyn cosmwasm_std::Querier"):
+                    qd.append(q.router_querier(o0))
+        ok = bool(qd) and all(x is not None and is_param(x["router"], "self") and is_param(x["api"], "api") and is_param(x["storage"], "storage") and
+                              is_param(x["block_info"], "block") for x in qd)
         ctx.ob(R, key, "nested-querier-over-same-store", ok, "Router::query builds its querier over a different store", fn=f,
                sample="self.querier(api, storage, block)")
     key = "app::Router::querier"
